@@ -36,6 +36,36 @@ pub fn run(ctx: &Ctx) -> (&'static str, &'static str) {
         els.push((format!("Fq2 element #{}", k), embed_q2_in_q12(&Q2::new(vec![rq(&mut rng), rq(&mut rng)]))));
         els.push((format!("Fq6 element #{}", k), embed_q6_in_q12(&q6_from_coeffs(&(0..6).map(|_| rq(&mut rng)).collect::<Vec<_>>()))));
     }
+    // PRESCRIBED NORM: elements a of Fq with a^12 = t * 2^-384 for small t - the value that the innermost inversion of the easy
+    // part (Fq12 -> Fq6 -> Fq2 -> Fq: the norm down to Fq) receives then has the in-memory word t.  An inversion algorithm whose
+    // iteration count depends on the operand (binary / Kaliski) takes its shortest paths there.  12th roots by the root finder
+    // (a sixth of all values have one); also a times a unitary element (same norm, generic coordinates).
+    {
+        let rinv = Q1::new(alpha::pow2(384) % q).inv().unwrap();
+        let mut seed = crate::infra::SplitMix(0xC12_0012);
+        let mut found = 0;
+        let unitary = {
+            let gq = q12_from_coeffs(&(0..12).map(|_| rq(&mut rng)).collect::<Vec<_>>());
+            frob12(&gq, 6).mul(&gq.inv().unwrap())
+        };
+        for t in 1u64..=200 {
+            if found >= ctx.tier.pick(4, 16) {
+                break;
+            }
+            let c = Q1::from_u64(t).mul(&rinv);
+            let mut f = vec![Q1::zero(); 13];
+            f[0] = c.neg();
+            f[12] = Q1::one();
+            let mut rnd = || Q1::from_u64(seed.next() | 1).mul(&Q1::from_u64(seed.next() | 1));
+            if let Some(a) = crate::polyroots::roots(&f, q, &mut rnd).into_iter().next() {
+                found += 1;
+                let e = q12_from_coeffs(&{ let mut cc = vec![Q1::zero(); 12]; cc[0] = a; cc });
+                els.push((format!("Fq element a with a^12 = {} in Montgomery form", t), e.clone()));
+                els.push((format!("(Fq element a with a^12 = {} in Montgomery form) x unitary element", t), e.mul(&unitary)));
+            }
+        }
+        ctx.require(found >= 2, "no 12th roots found for the prescribed-norm elements");
+    }
     // pure-w-part elements (c0 = 0)
     for k in 0..ctx.tier.pick(2, 6) {
         els.push((format!("c0 = 0 element #{}", k), Q12::new(vec![Q6::zero(), q6_from_coeffs(&(0..6).map(|_| rq(&mut rng)).collect::<Vec<_>>())])));
